@@ -183,7 +183,7 @@ def run(tier, seed):
             if got == "panic":
                 continue
             f.write(json.dumps({"ev": "route", "route": route, "pos": position(v), "verdict": got,
-                                "same": ("ok" in obs and int(obs["ok"]) == v)}) + "\n")
+                                "same": ("ok" in obs and obs["ok"] != "absent" and int(obs["ok"]) == v)}) + "\n")
             lines.append((route, v, obs))
             if abs(v) > 2**31:
                 nontrivial.add((route, v))
